@@ -8,6 +8,7 @@ import gens
 from engine import Op, set_mode
 
 PROP = "C03"
+QUICK_BOOST = 2
 THOROUGH_EXHAUSTIVE = True   # thorough: every day of a 400-year Gregorian cycle (and 8-year windows of the fixed calendars), all six conversions
 LEAN_MODULES = ["IsoDT.Props.C03"]
 
